@@ -142,7 +142,7 @@ def run_model(trace_text):
              res[i].get("M", {"verdict": "HOLDS"})) for i in sorted(res)]
 
 
-NOT_REPLAYABLE = {"memc", "codec", "crash"}   # concurrent histories: the recorded history itself is the replay
+NOT_REPLAYABLE = {"memc", "codec", "crash", "fault"}   # concurrent histories: the recorded history itself is the replay
 
 
 def domain_of(lines):
